@@ -379,3 +379,89 @@ Proof.
   apply replay_runs; auto using run_total_data_runs.
   now apply run_sizes_bounded.
 Qed.
+
+(* ------------------------------------------------------------------ *)
+(* the replay reads nothing beyond the segmentation of the stream      *)
+(* ------------------------------------------------------------------ *)
+Lemma emit_content : forall fuel dir content sz pt cks c' pt',
+    emit fuel dir content sz pt = Some (cks, c', pt') -> c' = skipN sz content.
+Proof.
+  induction fuel as [|fu IH]; intros dir content sz pt cks c' pt' H; [discriminate|]. cbn [emit] in H.
+  destruct pt as [|[t z] r]; [discriminate|].
+  destruct (N.eqb_spec (sz - N.min sz z) 0) as [E|E].
+  - inversion H; subst. f_equal. lia.
+  - destruct (emit fu dir (skipN (N.min sz z) content) (sz - N.min sz z) _) as [[[cs0 c0] p0]|] eqn:Ee; [|discriminate].
+    inversion H; subst. rewrite (IH _ _ _ _ _ _ _ Ee), <- skipN_add. f_equal. lia.
+Qed.
+
+Lemma replay_unfold fu d z seg (cc cs : list N) (ptc pts : list (N * N)) :
+  z < P64 -> (cc <> [] \/ cs <> []) ->
+  replay (S fu) d (varint z ++ seg) cc cs ptc pts =
+  if z =? 0 then replay fu (negb d) seg cc cs ptc pts
+  else if d then match emit (S (length pts)) d cs z pts with
+                 | Some (ch, cs', pts') => match replay fu (negb d) seg cc cs' ptc pts' with Some l => Some (ch ++ l) | None => None end
+                 | None => None end
+       else match emit (S (length ptc)) d cc z ptc with
+            | Some (ch, cc', ptc') => match replay fu (negb d) seg cc' cs ptc' pts with Some l => Some (ch ++ l) | None => None end
+            | None => None end.
+Proof.
+  intros Hz Hne. cbn [replay]. rewrite (read_varint_varint z seg Hz).
+  destruct cc as [|c0 ccr], cs as [|s0 csr]; try reflexivity. destruct Hne; congruence.
+Qed.
+Lemma replay_zero fu d seg (cc cs : list N) (ptc pts : list (N * N)) :
+  (cc <> [] \/ cs <> []) -> replay (S fu) d (0 :: seg) cc cs ptc pts = replay fu (negb d) seg cc cs ptc pts.
+Proof. intros Hne. cbn [replay read_varint]. destruct cc, cs; try reflexivity. destruct Hne; congruence. Qed.
+Lemma replay_done fu d seg ptc pts : replay (S fu) d seg [] [] ptc pts = Some [].
+Proof. reflexivity. Qed.
+
+(* the replay does not read beyond the segmentation of runs that cover the two contents *)
+Lemma replay_tail : forall runs f1 f2 want t1 t2 cc cs ptc pts,
+    run_total false runs = lenN cc -> run_total true runs = lenN cs -> Forall (fun r => snd r < P64) runs ->
+    (length (segmentation want runs ++ t1) < f1)%nat -> (length (segmentation want runs ++ t2) < f2)%nat ->
+    replay f1 want (segmentation want runs ++ t1) cc cs ptc pts = replay f2 want (segmentation want runs ++ t2) cc cs ptc pts.
+Proof.
+  induction runs as [|[d z] rest IH]; intros f1 f2 want t1 t2 cc cs ptc pts Hc Hs Hb H1 H2.
+  - cbn [run_total] in *. symmetry in Hc, Hs. apply lenN_0_nil in Hc, Hs. subst.
+    destruct f1; [lia|]. destruct f2; [lia|]. reflexivity.
+  - destruct f1 as [|f1]; [lia|]. destruct f2 as [|f2]; [lia|].
+    destruct cc as [|c0 ccr] eqn:Ecc, cs as [|s0 csr] eqn:Ecs; [reflexivity| | |].
+    all: rewrite <- ?Ecc, <- ?Ecs in *.
+    all: assert (Hne : cc <> [] \/ cs <> []) by (subst; (left; discriminate) || (right; discriminate)).
+    all: clear Ecc Ecs; inversion Hb as [|? ? Hz Hbr]; subst; cbn [snd] in Hz.
+    all: pose proof (varint_nonempty z) as Hvn.
+    all: assert (Hvl : (0 < length (varint z))%nat) by (destruct (varint z); [congruence|cbn [length]; lia]).
+    all: cbn [segmentation] in *.
+    all: destruct (Bool.eqb d want) eqn:Edw.
+    all: try (apply Bool.eqb_prop in Edw; subst want).
+    all: try (assert (Hd : d = negb want) by (destruct d, want; cbn [Bool.eqb negb] in *; congruence);
+              destruct f1 as [|f1]; [cbn [app length] in H1; rewrite !app_length in H1; lia|];
+              destruct f2 as [|f2]; [cbn [app length] in H2; rewrite !app_length in H2; lia|];
+              cbn [app] in *; rewrite !(replay_zero _ _ _ _ _ _ _ Hne); cbn [length] in H1, H2;
+              rewrite <- Hd; assert (Hw : want = negb d) by (subst d; now rewrite Bool.negb_involutive);
+              rewrite Hw in *; clear Hd Hw).
+    all: rewrite <- !app_assoc in *; rewrite !(replay_unfold _ _ _ _ _ _ _ _ Hz Hne).
+    all: rewrite app_length in H1, H2.
+    all: destruct (N.eqb_spec z 0) as [Ez|Ez];
+      [ apply IH; try assumption; try lia; (destruct d; cbn [run_total Bool.eqb negb] in *; lia) |].
+    all: destruct d;
+      [ destruct (emit (S (length pts)) true cs z pts) as [[[ch c'] p']|] eqn:Ee; [|reflexivity];
+        rewrite (IH f1 f2 (negb true) t1 t2 cc c' ptc p'); try reflexivity; try assumption; try lia;
+        cbn [run_total Bool.eqb negb] in *; try lia;
+        rewrite (emit_content _ _ _ _ _ _ _ _ Ee), lenN_skipN; lia
+      | destruct (emit (S (length ptc)) false cc z ptc) as [[[ch c'] p']|] eqn:Ee; [|reflexivity];
+        rewrite (IH f1 f2 (negb false) t1 t2 c' cs p' pts); try reflexivity; try assumption; try lia;
+        cbn [run_total Bool.eqb negb] in *; try lia;
+        rewrite (emit_content _ _ _ _ _ _ _ _ Ee), lenN_skipN; lia ].
+Qed.
+
+(* segmentation of a concatenation *)
+Fixpoint want_after (want : bool) (runs : list (bool * N)) : bool :=
+  match runs with
+  | [] => want
+  | (d, _) :: r => if Bool.eqb d want then want_after (negb want) r else want_after want r
+  end.
+Lemma segmentation_app : forall a want b, segmentation want (a ++ b) = segmentation want a ++ segmentation (want_after want a) b.
+Proof.
+  induction a as [|[d z] r IH]; intros want b; [reflexivity|]. cbn [app segmentation want_after].
+  destruct (Bool.eqb d want); rewrite IH; cbn [app]; now rewrite <- ?app_assoc.
+Qed.
